@@ -82,6 +82,9 @@ def setSliceRaw (bits d hi lo v : Nat) : Nat :=
 def setBitRaw (bits d k : Nat) (v : Bool) : Nat :=
   if v then d ||| (1 <<< k) else d &&& (mask bits ^^^ (1 <<< k))
 
+/-- the bit test `(d & (1 << k)) != 0` -/
+def getBitRaw (d k : Nat) : Bool := d &&& (1 <<< k) != 0
+
 /-- `__getitem__` -/
 def getItem (f : Frame) : Key → PyRes Item
   | .slice a b s => do
@@ -91,7 +94,7 @@ def getItem (f : Frame) : Key → PyRes Item
       match k.asInt? with
       | some i =>
           if i < 0 || i ≥ f.bits then .error .IndexError
-          else .ok (.bit (f.data &&& (1 <<< i.toNat) != 0))
+          else .ok (.bit (getBitRaw f.data i.toNat))
       | none => .error .TypeError
 
 /-- `__setitem__`; the frame is returned unchanged-by-type on error -/
